@@ -384,6 +384,26 @@ func (c32Store) Valid(mm Model, s Step) bool {
 func selection(rng *rand.Rand, n int, ordered bool) ([]string, []int) {
 	var sel []string
 	var pages []int
+	if !ordered && n >= 3 && rng.IntN(4) == 0 {
+		// a range with one or two of its pages taken out again: "a-b,!x,!y"
+		a := 1 + rng.IntN(n-2)
+		b := a + 2 + rng.IntN(min(4, n-a-1))
+		sel = append(sel, fmt.Sprintf("%d-%d", a, b))
+		out := map[int]bool{}
+		for i := 0; i < 1+rng.IntN(2); i++ {
+			x := a + rng.IntN(b-a+1)
+			if !out[x] {
+				out[x] = true
+				sel = append(sel, fmt.Sprintf("!%d", x))
+			}
+		}
+		for p := a; p <= b; p++ {
+			if !out[p] {
+				pages = append(pages, p)
+			}
+		}
+		return sel, pages
+	}
 	k := 1 + rng.IntN(3)
 	for i := 0; i < k; i++ {
 		a := 1 + rng.IntN(n)
@@ -500,6 +520,6 @@ func (c32Store) Exec(s Step, path, aux string) error {
 
 func init() {
 	core.Register(histProp{id: "C32", store: c32Store{}, maxLen: 8, quickN: 30, thoroughN: 1500,
-		rule: "seeded histories of 1-8 page operations (rotate by +-90/180/270, remove, trim, collect with repetitions, insert blank pages before/after, add/remove crop/trim/bleed/art boxes given as absolute rectangles, crop) with explicit page numbers and simple ranges as selections, on documents written by an independent generator (2-30 pages, unique marker text per page, /Rotate and /MediaBox partly inherited from intermediate page-tree nodes, mixed rotations and sizes) and on corpus files. After every step page count, per-page content identity, effective rotation and the boxes are compared with a page-list model; unselected pages must be identical to the previous step. Faults/crash snapshots per step as for C35. Distinct by (document, step sequence); non-trivial when a step succeeded.",
-		assumptions: []string{"page content identity is the hash of the decoded content stream as pdfcpu extracts it", "selection syntax beyond explicit numbers and a-b ranges is C31's subject and not used"}})
+		rule: "seeded histories of 1-8 page operations (rotate by +-90/180/270, remove, trim, collect with repetitions, insert blank pages before/after, add/remove crop/trim/bleed/art boxes given as absolute rectangles, crop) with explicit page numbers, simple ranges and ranges with excluded pages (a-b,!x) as selections, on documents written by an independent generator (2-30 pages, unique marker text per page, /Rotate and /MediaBox partly inherited from intermediate page-tree nodes, mixed rotations and sizes) and on corpus files. After every step page count, per-page content identity, effective rotation and the boxes are compared with a page-list model; unselected pages must be identical to the previous step. Faults/crash snapshots per step as for C35. Distinct by (document, step sequence); non-trivial when a step succeeded.",
+		assumptions: []string{"page content identity is the hash of the decoded content stream as pdfcpu extracts it", "selection syntax beyond explicit numbers, a-b ranges and !x exclusions is C31's subject and not used"}})
 }
